@@ -272,6 +272,9 @@ CORPUS = [
     {'netlist': ['V1 1 0 ac 2', 'R1 1 2 1', 'L1 2 0 2', 'L2 3 0 2', 'K1 L1 L2 {1/2}', 'R2 3 0 4', 'C1 3 0 {1/5}'],
      'omega_points': {'omega_0': SYM_POINTS['omega_0']}, 'ntime': 2, 'transfer': ['1', '0', '3', '0'], 'transfer_src': 'V1', 'transfer_elt': 'R2',
      'src': [{'name': 'V1', 'prefix': 'V1 1 0', 'desc': {'form': 'ac', 'A': '2', 'k': 0, 'w': 'omega_0'}}]},
+    # a lossless tank resonant at omega_0 = 2, which is one of the sample points: the pole is skipped, not compared
+    {'netlist': ['I1 0 1 ac 3', 'L1 1 0 {1/4}', 'C1 1 0 1'], 'omega_points': {'omega_0': SYM_POINTS['omega_0']}, 'ntime': 2,
+     'src': [{'name': 'I1', 'prefix': 'I1 0 1', 'desc': {'form': 'ac', 'A': '3', 'k': 0, 'w': 'omega_0'}}]},
     {'netlist': ['V1 1 0 {3*sin(w1*t)}', 'R1 1 2 2', 'L1 2 0 {1/3}', 'I1 0 2 {2*cos(omega_0*t + pi/2) + 2}', 'C1 2 0 {1/4}'],
      'omega_points': {'omega_0': SYM_POINTS['omega_0'], 'w1': SYM_POINTS['w1']}, 'ntime': 2,
      'src': [{'name': 'V1', 'prefix': 'V1 1 0', 'desc': {'form': 't', 'terms': [{'f': 'sin', 'A': '3', 'k': 0, 'w': 'w1'}]}},
@@ -842,7 +845,7 @@ def build_checks(ci, case, wr, tr, res):
         if sp_:
             tag = '%d/%s@%s' % (ci, sp_['sym'], wkey.replace('/', '_'))
             res.count('symbolic_omega_points')
-            if sp_['i'] == 0:
+            if sp_.get('k', sp_['i']) == 0:
                 # the guard of theorem sympoints_decide, evaluated in Coq: distinct points, more of them than the degree bound
                 complete = sp_['n'] > sp_['bound']
                 res.count('symbolic_omega_kinds_' + ('complete' if complete else 'partial'))
@@ -1308,7 +1311,8 @@ def run(tier='quick', replay=None):
         res.rule = ('random connected netlists (netgen: R/L/C tree + chords + controlled sources, transformer, gyrator, mutual inductance, '
                     'two-ports, wires, ammeters) whose 1-4 independent sources are ac sources (amplitude, phase in {0, +-pi/2, pi}, rational omega) or '
                     't-domain cos/sin expressions (one or two frequencies per source, 1-2 distinct frequencies per circuit) plus a fixed corpus; '
-                    'single-sinusoid phasor round trips; non-trivial = Lcapy produced at least one ac sub-netlist; distinct = distinct netlist text')
+                    'circuits whose sources carry a symbolic angular frequency (omega_0 by default, w1; ac and t-domain forms, dc offsets), each evaluated at '
+                    '(degree bound + 1) rational sample points; single-sinusoid phasor round trips; non-trivial = Lcapy produced at least one ac sub-netlist; distinct = distinct netlist text')
 
         # ---- decide ----------------------------------------------------------------------
         seen = set()
